@@ -191,7 +191,6 @@ def main_check(pid, tier, seed):
     if harness_errors:
         case, r = harness_errors[0]
         print(f"HARNESS-ERROR property={pid} ({len(harness_errors)} cases) first: {r.get('tb', '')[-1500:]}")
-        return 3
     if viol_lines:
         for path, wit in viol_lines[:20]:
             print(f"VIOLATION property={pid} replay={path}")
@@ -199,6 +198,8 @@ def main_check(pid, tier, seed):
         if len(viol_lines) > 20:
             print(f"   ... and {len(viol_lines) - 20} more violating cases")
         return 1
+    if harness_errors:
+        return 3
     if inconclusive_reasons:
         for why in inconclusive_reasons[:10]:
             print(f"INCONCLUSIVE property={pid}: {why}")
